@@ -103,14 +103,27 @@ def demeLimit (mx : Bool) (limit : Nat) (inds : List Ind) : List Ind :=
 def pyIndex {α} (l : List α) (i : Int) : Option α :=
   if i ≥ 0 then l[i.toNat]? else if (-i).toNat ≤ l.length then l[l.length - (-i).toNat]? else none
 
-/-- `LevelLimit` for one parent level: candidates of that level in, filtered out -/
-def levelLimitLevel (mx : Bool) (limit active : Nat) (cs : List Cand) : Option (List Cand) :=
-  let all := (NBC.sortDesc mx ((cs.flatMap (·.inds)).map fun i => (0, i))).map (·.2)
+/-- all candidates of one parent level, best first (`level_candidates.sort(reverse=True)`) -/
+def levelCands (mx : Bool) (l : Nat) (cs : List Cand) : List Ind :=
+  (NBC.sortDesc mx (((cs.filter (·.level == l)).flatMap (·.inds)).map fun i => (0, i))).map (·.2)
+
+/-- the cut-off candidate of `LevelLimit` for one parent level: `none` = an `IndexError` in the
+code, `some none` = nothing has to be cut, `some (some c)` = keep only candidates strictly
+better than `c` -/
+def levelCut (mx : Bool) (limit active : Nat) (all : List Ind) : Option (Option Ind) :=
   if active + all.length > limit then
     match pyIndex all ((limit : Int) - (active : Int)) with
-    | none => none   -- IndexError in the code
-    | some cut => some (cs.map fun c => { c with inds := c.inds.filter fun i => better mx i cut })
-  else some cs
+    | none => none
+    | some cut => some (some cut)
+  else some none
+
+/-- `LevelLimit` for one parent level `l`: candidates of other levels are untouched -/
+def levelLimitLevel (mx : Bool) (limit active l : Nat) (cs : List Cand) : Option (List Cand) :=
+  match levelCut mx limit active (levelCands mx l cs) with
+  | none => none
+  | some none => some cs
+  | some (some cut) =>
+    some (cs.map fun c => if c.level == l then { c with inds := c.inds.filter fun i => better mx i cut } else c)
 
 /-- `np.isclose(a, b)` with default tolerances, as computed in binary64 -/
 def isclose (a b : Rat) : Bool :=
@@ -142,8 +155,7 @@ def applyFilter (v : View) (env : Env) (f : Filter) (cs : List Cand) : Option (L
   | .demeLimit limit => some <| cs.map fun c => { c with inds := demeLimit v.maximize limit c.inds }
   | .levelLimit limit =>
     (List.range (v.height - 1)).foldlM (fun (acc : List Cand) l =>
-      (levelLimitLevel v.maximize limit (v.activeAt (l + 1)) (acc.filter (·.level == l))).map fun upd =>
-        acc.map fun c => if c.level == l then (upd.find? (·.deme == c.deme)).getD c else c) cs
+      levelLimitLevel v.maximize limit (v.activeAt (l + 1)) l acc) cs
   | .skipSame =>
     some <| cs.map fun c =>
       match v.demes.find? (·.id == c.deme) with
@@ -154,16 +166,22 @@ def applyFilter (v : View) (env : Env) (f : Filter) (cs : List Cand) : Option (L
         let seeds := (v.demes.filter fun k => kids.contains k.id).filterMap (·.seed)
         { c with inds := c.inds.filter fun i => !(seeds.any fun s => sameGenome s.genome i.genome) }
 
-/-- `SproutMechanism.get_seeds`: generator, deme filters, tree filters, non-empty only;
-also returns the output of every stage for the correspondence check -/
+/-- a chain of filters, applied in order -/
+def applyFilters (v : View) (env : Env) : List Filter → List Cand → Option (List Cand)
+  | [], cs => some cs
+  | f :: fs, cs => (applyFilter v env f cs).bind (applyFilters v env fs)
+
+/-- `SproutMechanism.get_seeds`: generator, deme filters, tree filters, non-empty only -/
+def getSeeds (v : View) (env : Env) (m : Mechanism) : Option (List Cand) :=
+  (generate v env m.gen).bind fun g =>
+    (applyFilters v env (m.demeFilters ++ m.treeFilters) g).map fun cs => cs.filter fun c => !c.inds.isEmpty
+
+/-- the output of every stage (generator, then each filter) — for the correspondence check -/
 def getSeedsTrace (v : View) (env : Env) (m : Mechanism) : Option (List (List Cand)) :=
   (generate v env m.gen).bind fun g =>
     (m.demeFilters ++ m.treeFilters).foldlM (fun (acc : List (List Cand)) f =>
       match acc.getLast? with
       | none => none
       | some cur => (applyFilter v env f cur).map fun nxt => acc ++ [nxt]) [g]
-
-def getSeeds (v : View) (env : Env) (m : Mechanism) : Option (List Cand) :=
-  (getSeedsTrace v env m).bind fun tr => tr.getLast?.map fun cs => cs.filter fun c => !c.inds.isEmpty
 
 end Sprout
